@@ -14,8 +14,8 @@ import (
 	sdk "github.com/cosmos/cosmos-sdk/types"
 	"github.com/cosmos/cosmos-sdk/types/query"
 	"github.com/gogo/protobuf/proto"
-	didcrypto "github.com/medibloc/panacea-core/v2/x/did/client/crypto"
 	aoltypes "github.com/medibloc/panacea-core/v2/x/aol/types"
+	didcrypto "github.com/medibloc/panacea-core/v2/x/did/client/crypto"
 	didtypes "github.com/medibloc/panacea-core/v2/x/did/types"
 	pnfttypes "github.com/medibloc/panacea-core/v2/x/pnft/types"
 	"golang.org/x/crypto/pbkdf2"
